@@ -351,3 +351,23 @@ def aux_extras(ck, w, seed, quick):
                     ck.violation('%s: blk file ends %d bytes into the last block (inside its AuxPoW section), %s exits %d and leaves %s' % (coin, cut, cb, r.rc, finals),
                                  {'coin': coin, 'cut': cut, 'observed': r.brief(), 'tags': []})
 
+    # which coin is parsed is decided by -c alone (bitcoin when it is absent), not by what the path of the data directory looks
+    # like: a bitcoin chain with BIP9 header versions (far above the AuxPoW activation versions) under paths that end like the
+    # default folders of the AuxPoW coins, -c omitted
+    r0 = random.Random('%d-defaultfolder' % seed)
+    vb, prev = [], b'\0' * 32
+    for h in range(4):
+        vb.append(datadir.mk_block(prev, chains.std_txs(h, 'bitcoin'), t=1500000000 + h, ver=[1, 0x20000000, 0x3fffe000, 0x00620104][h], nonce=h))
+        prev = vb[-1]['hash']
+    exp, _ = ref.csv_expected(list(enumerate(vb)), 'bitcoin')
+    for tail in ('.dogecoin/blocks', '.namecoin', '.litecoin/blocks', '.bitcoin/blocks'):
+        base = w.mk('home')
+        d = datadir.simple_dir(os.path.join(base, tail), vb, 'bitcoin').write(plain=True)
+        r = run.run_parser(d, 'csvdump', dump=w.mk('out'), coin=None)
+        ck.evals()
+        ck.distinct(('defaultfolder', tail))
+        bad = [f for f in exp if r.files.get('%s-0-3.csv' % f) != exp[f]]
+        if r.rc != 0 or bad:
+            ck.violation('bitcoin chain (header versions 1, 0x20000000, 0x3fffe000, 0x620104) under a directory ending in %s, no -c: exit %d, files differing from the reference: %s; %s'
+                         % (tail, r.rc, bad, r.stderr[-200:]), {'path_tail': tail, 'observed': r.brief(), 'tags': []})
+
